@@ -81,6 +81,12 @@ func (e *Eng) actAuthorize() {
 	}
 	res := e.w.Authorize(q, h.Consent{Session: sess, Scopes: append([]string{}, granted...)})
 	e.step("authorize:" + rtype)
+	if e.w.Cfg.IsPushedAuthorizeEnforced {
+		e.label("plain-authorize-under-par-enforcement")
+		if res.Code != "" || res.Access != "" || res.IDToken != "" {
+			e.viol("C17/enforcement-ignored", "pushed authorization requests are enforced, but a plain authorization request (no request_uri) was accepted")
+		}
+	}
 	if !res.Err.OK() || (res.Code == "" && res.Access == "") {
 		e.logf("authorize client=%s type=%q scopes=%q -> %v (not asserted here)", client, rtype, scopes, res.Err)
 		e.label("authorize-refused")
